@@ -32,15 +32,26 @@ def exec_clean_case(case: dict) -> dict:
     rels = []
     try:
         out = run_history(case["project"], case["phases"], world=world, keep_world=True)
+        if rng.random() < 0.6:
+            # a build in which commands fail before rewriting their outputs: the outputs of the
+            # steps behind a changed source stay on disk as OUTDATED
+            srcs = [p for p, v in case["project"]["sources"].items() if not p.endswith(".py") and len(v) > 1]
+            if srcs:
+                p = rng.choice(srcs)
+                fphase = {"edits": [["set", p, rng.choice(case["project"]["sources"][p])], ["touch", p], ["env", "VV_FAIL", "1"]],
+                          "how": "restart", "cfg": dict(case["phases"][-1].get("cfg", {}), keep_going=True), "seed": case["seed"]}
+                out2 = run_history(case["project"], [fphase], world=world, keep_world=True)
+                out["runs"].extend(out2["runs"])
         # user edits after the last build: overwrite / delete some outputs
         outs = sorted(p for p, v in out["runs"][-1]["final_state"]["nodes"].items()
                       if v["kind"] == "file" and v["fstate"] in ("BUILT", "OUTDATED", "VOLATILE"))
         for key in outs:
             r = rng.random()
             path = key[5:]
-            if r < 0.2:
+            st = out["runs"][-1]["final_state"]["nodes"][key]["fstate"]
+            if r < (0.6 if st == "OUTDATED" else 0.2):
                 world.write(path, "edited by the user after the build\n")
-            elif r < 0.3:
+            elif r < (0.7 if st == "OUTDATED" else 0.3):
                 world.delete(path)
         labels = [k[5:] for k in outs]
         dirs = sorted({os.path.dirname(p) for p in labels if "/" in p})
@@ -55,7 +66,7 @@ def exec_clean_case(case: dict) -> dict:
                 paths = [rng.choice([p for p in case["project"]["sources"]])]
             else:
                 paths = sorted(rng.sample(labels, min(len(labels), rng.choice([1, 2])))) or ["."]
-            argsets.append({"paths": paths, "all": rng.random() < 0.6, "unsafe": rng.random() < 0.3,
+            argsets.append({"paths": paths, "all": rng.random() < 0.7, "unsafe": rng.random() < 0.25,
                             "commit": rng.random() < 0.85})
         k = 0
         for a in argsets:
@@ -72,7 +83,12 @@ def exec_clean_case(case: dict) -> dict:
                     import contextlib
 
                     with contextlib.redirect_stdout(io.StringIO()):
-                        clean(con, {Path(p) for p in a["paths"]}, ns)
+                        try:
+                            clean(con, {Path(p) for p in a["paths"]}, ns)
+                        except Exception as exc:  # noqa: BLE001
+                            # the tool stopped with an error (e.g. an output replaced by a
+                            # directory cannot be hashed); what it removed before is still judged
+                            a = dict(a, tool_error=type(exc).__name__)
                     st_after = project_db(con)
                 finally:
                     con.close()
